@@ -576,6 +576,33 @@ def _sentinel_agreement(ctx, prog, fa, sentinel: T):
                 if not al:
                     raise ValueError("align call not found")
                 nb = (al[0].data["bound"] or {}).get("n")
+                if nb is not None:
+                    # the association-based formats (tum / euroc / bag); the
+                    # index-based kitti branch is judged below
+                    sub_ = tm.attr(tm.param("args"), "subcommand")
+
+                    def fmt_world(kitti):
+                        return lambda a_: (kitti == (a_.args[0] == "Eq")) \
+                            if a_.op == "cmp" and a_.args[0] in (
+                                "Eq", "NotEq") and a_.args[1] is sub_ and \
+                            tm.is_const(a_.args[2], "kitti") else None
+                    nb_k = tm.deep_select(nb, fmt_world(True))
+                    nb = tm.deep_select(nb, fmt_world(False))
+                    if nb_k is not nb:
+                        # kitti: the marker, or explicitly the number of all
+                        # (matched) poses
+                        nb_k = tm.deep_select(nb_k, lambda a_: True if (
+                            a_.op == "cmp" and a_.args[0] == "Eq" and
+                            a_.args[1] is A and tm.is_const(a_.args[2], cli))
+                            else None)
+                        alts = tm.strip_ite(nb_k)
+                        okk = all(a_ is A or (a_.op == "attr" and a_.args[1]
+                                              == "num_poses") or
+                                  is_call_to(a_, "builtins.len")
+                                  for a_ in alts)
+                        if not okk:
+                            raise ValueError(f"kitti branch passes "
+                                             f"{fmt(nb_k)[:60]}")
                 got = dv if nb is None else _const_eval(nb, env)
                 site = al[0]
         except (ValueError, KeyError, IndexError, TypeError) as e:
